@@ -23,7 +23,12 @@ META = {
             'target host for DefaultLoadBalancingPolicy; with query None and with a statement without routing key for TokenAwarePolicy): no '
             'duplicates; exactly the hosts reported live to the policy and not ignored; datacenter-aware: every live local host first, then at '
             'most N (and, unfiltered, min(N, live)) per remote datacenter, members LOCAL/REMOTE by position, live hosts left out IGNORED; '
-            'filtered / not white-listed hosts never yielded and IGNORED.',
+            'filtered / not white-listed hosts never yielded and IGNORED.  HostFilterPolicy (over RoundRobin and DCAwareRoundRobin children) is run '
+            'with predicates by address and by the host\'s location now (datacenter excluded, rack excluded, only one datacenter accepted); the '
+            'oracle evaluates a location predicate on the location the host has in the judged state.  Configurations named +observed (all '
+            'location predicates and one configuration per policy class in quick, every configuration in thorough) request and judge the plans '
+            'and distances of every instance after every event of the history, not only in its last state, so that plans are taken before and '
+            'after each location / membership change within one history.',
     'note': 'Events reach the policies in the order the cluster code calls them (single-threaded histories).  Host.broadcast_rpc_address is '
             'set when the Host is created.  randint is rebound to 0; every rotation is accepted by the oracle.',
     'design_ref': 'C21',
@@ -470,7 +475,9 @@ def run(ctx):
         explore.bfs(ctx, H, params, max_depth=depth, dev_bound=1, label='c21-' + name,
                     max_states=None)
     ctx.cov['rule'] = ('state = event history replayed on fresh real policy objects; non-trivial = distinct canonical state at depth >= 3; '
-                       'outcomes = (policy, instance kind, plan length, number of distinct distances)')
+                       'outcomes = (policy, instance kind, plan length, number of distinct distances) of the plans judged in the last state of '
+                       'a history; plans_judged_mid_history counts the plans judged inside the histories of the +observed configurations '
+                       '(the policies\' round-robin position is not part of the canonical state: any rotation is accepted)')
     ctx.assume('membership events reach a policy one at a time, in the order the cluster code issues them (handler atomicity)')
     ctx.assume('Host.broadcast_rpc_address is known when the Host is created (DefaultLoadBalancingPolicy resolves a target by it)')
     ctx.assume('a stale Host object (previous incarnation of a removed and re-added node) is only delivered while it has the location of the current one')
